@@ -1,273 +1,189 @@
 //! C06 — registry admission is exact and a failed registration leaves no trace.
-//! Hosted in `crate::registry` (unit access to `RegistryCore`). Descriptor ids / dimension
-//! hashes / names are chosen symbolically from small pools, so the admission logic is decided for
-//! arbitrary hash values, not only for those FNV produces for particular strings. The registry's
-//! maps are the abstract finite map (E6).
+//! Hosted in `crate::registry` (unit access to `RegistryCore`).
+//!
+//! Inductive shape ("one step from an arbitrary state"): the registry state — the set of live
+//! descriptor ids, the name -> dimension map of everything ever registered, the live collectors —
+//! is built directly with **symbolic contents** (64-bit ids and dimension hashes, names chosen
+//! symbolically among equal-length strings) and concrete sizes; then one `register` /
+//! `unregister` with a collector whose descriptors are symbolic as well; the result and the
+//! complete post-state are compared with the statement. A history of any length only ever
+//! passes through such states. The registry's maps are the abstract finite map (E6).
 use crate::verif_incrate::common::*;
 use super::*;
 use crate::desc::Desc;
 
-#[derive(Clone)]
 struct Coll {
     descs: Vec<Desc>,
-    tag: &'static str,
 }
 impl Collector for Coll {
     fn desc(&self) -> Vec<&Desc> {
         self.descs.iter().collect()
     }
     fn collect(&self) -> Vec<proto::MetricFamily> {
-        let mut mf = proto::MetricFamily::default();
-        mf.set_name(String::from(self.tag));
-        mf.set_metric(vec![proto::Metric::default()]);
-        vec![mf]
+        Vec::new()
     }
 }
-#[derive(Clone, Copy)]
-struct D {
-    name: u8, // 0 = "a", 1 = "b"
-    id: u64,
-    dim: u64,
-}
-fn mk(d: D) -> Desc {
-    Desc {
-        fq_name: String::from(if d.name == 0 { "a" } else { "b" }),
-        help: String::new(),
-        const_label_pairs: Vec::new(),
-        variable_labels: Vec::new(),
-        id: d.id,
-        dim_hash: d.dim,
-    }
-}
-fn any_d() -> D {
-    let name = any_u8();
-    assume(name < 2);
-    // ids are distinct powers of two so that sums of distinct id sets never collide
+/// a name of concrete length 1 with a symbolic byte out of {a, b, c}
+fn any_name() -> (u8, String) {
     let k = any_u8();
     assume(k < 3);
-    let dim = any_u8();
-    assume(dim < 2);
-    D { name, id: 1u64 << k, dim: dim as u64 }
+    (k, unsafe { String::from_utf8_unchecked(vec![b'a' + k]) })
+}
+fn mk(name: String, id: u64, dim: u64) -> Desc {
+    Desc { fq_name: name, help: String::new(), const_label_pairs: Vec::new(), variable_labels: Vec::new(), id, dim_hash: dim }
+}
+struct Pre {
+    ids: [u64; 2],
+    names: [u8; 2],
+    dims: [u64; 2],
+    ckey: u64,
+}
+/// arbitrary pre-state: two live descriptor ids, two names with registered dimensions, one live
+/// collector (key = sum of its ids, as `register` computes it)
+fn pre_state(core: &mut RegistryCore) -> Pre {
+    let ids = [any_u64(), any_u64()];
+    assume(ids[0] != ids[1]);
+    core.desc_ids.insert(ids[0]);
+    core.desc_ids.insert(ids[1]);
+    let (n0, s0) = any_name();
+    let (n1, s1) = any_name();
+    assume(n0 != n1);
+    let dims = [any_u64(), any_u64()];
+    core.dim_hashes_by_name.insert(s0, dims[0]);
+    core.dim_hashes_by_name.insert(s1, dims[1]);
+    let ckey = ids[0].wrapping_add(ids[1]);
+    core.collectors_by_id.insert(ckey, Box::new(Coll { descs: Vec::new() }));
+    Pre { ids, names: [n0, n1], dims, ckey }
+}
+fn dim_of(p: &Pre, name: u8) -> Option<u64> {
+    if p.names[0] == name { Some(p.dims[0]) } else if p.names[1] == name { Some(p.dims[1]) } else { None }
+}
+fn state_unchanged(core: &RegistryCore, p: &Pre) -> bool {
+    core.desc_ids.len() == 2 && core.desc_ids.contains(&p.ids[0]) && core.desc_ids.contains(&p.ids[1])
+        && core.dim_hashes_by_name.len() == 2 && core.collectors_by_id.len() == 1 && core.collectors_by_id.contains_key(&p.ckey)
+}
+fn name_str(k: u8) -> &'static str {
+    if k == 0 { "a" } else if k == 1 { "b" } else { "c" }
 }
 
-/// Reference registry (the statement of C06), over at most 8 descriptor slots.
-#[derive(Clone, Copy)]
-struct Model {
-    live: [bool; 4],       // collector i currently registered
-    dim_a: Option<u64>,    // dimension signature ever successfully registered under "a"
-    dim_b: Option<u64>,
-}
-struct Pool {
-    c: [[Option<D>; 2]; 4],
-}
-impl Pool {
-    fn descs(&self, i: usize) -> Vec<Desc> {
-        let mut v = Vec::new();
-        if let Some(d) = self.c[i][0] { v.push(mk(d)); }
-        if let Some(d) = self.c[i][1] { v.push(mk(d)); }
-        v
-    }
-    fn boxed(&self, i: usize) -> Box<dyn Collector> {
-        let tag = match i { 0 => "c0", 1 => "c1", 2 => "c2", _ => "c3" };
-        Box::new(Coll { descs: self.descs(i), tag })
-    }
-    fn ids(&self, i: usize) -> u64 {
-        let mut s = 0;
-        if let Some(d) = self.c[i][0] { s |= d.id; }
-        if let Some(d) = self.c[i][1] { s |= d.id; }
-        s
-    }
-}
-impl Model {
-    fn live_ids(&self, p: &Pool) -> u64 {
-        let mut s = 0;
-        let mut i = 0;
-        while i < 4 {
-            if self.live[i] { s |= p.ids(i); }
-            i += 1;
-        }
-        s
-    }
-    fn dim_of(&self, name: u8) -> Option<u64> {
-        if name == 0 { self.dim_a } else { self.dim_b }
-    }
-    /// -> Some(true) AlreadyReg expected, Some(false) other error expected, None success
-    fn register(&mut self, p: &Pool, i: usize) -> Option<bool> {
-        let live = self.live_ids(p);
-        let mut k = 0;
-        let mut dim_conflict = false;
-        let mut id_conflict = false;
-        while k < 2 {
-            if let Some(d) = p.c[i][k] {
-                if live & d.id != 0 { id_conflict = true; }
-                if let Some(h) = self.dim_of(d.name) { if h != d.dim { dim_conflict = true; } }
-            }
-            k += 1;
-        }
-        if id_conflict || dim_conflict {
-            return Some(id_conflict && !dim_conflict);
-        }
-        k = 0;
-        while k < 2 {
-            if let Some(d) = p.c[i][k] {
-                if d.name == 0 { self.dim_a = Some(d.dim); } else { self.dim_b = Some(d.dim); }
-            }
-            k += 1;
-        }
-        self.live[i] = true;
-        None
-    }
-    fn unregister(&mut self, p: &Pool, i: usize) -> bool {
-        // succeeds exactly for a currently registered collector (identified by its descriptor set)
-        let mut j = 0;
-        while j < 4 {
-            if self.live[j] && p.ids(j) == p.ids(i) {
-                self.live[j] = false;
-                return true;
-            }
-            j += 1;
-        }
-        false
-    }
-}
-
-/// the descriptor pool is well formed: equal ids imply equal names (an id is a hash of the name
-/// and the const label values); the two descriptors of collector 2 are distinct and, when they
-/// share a name, agree in dimension (collectors with internal conflicts are not in the pool)
-fn pool() -> Pool {
-    let p = Pool { c: [[Some(any_d()), None], [Some(any_d()), None], [Some(any_d()), Some(any_d())], [Some(any_d()), None]] };
-    let all = [p.c[0][0].unwrap(), p.c[1][0].unwrap(), p.c[2][0].unwrap(), p.c[2][1].unwrap(), p.c[3][0].unwrap()];
-    let mut i = 0;
-    while i < 5 {
-        let mut j = i + 1;
-        while j < 5 {
-            if all[i].id == all[j].id { assume(all[i].name == all[j].name); }
-            j += 1;
-        }
-        i += 1;
-    }
-    assume(all[2].id != all[3].id);
-    if all[2].name == all[3].name { assume(all[2].dim == all[3].dim); }
-    p
-}
-
-fn history(n: usize) {
-    let p = pool();
+/// register(collector with ONE symbolic descriptor) from an arbitrary state.
+#[cfg_attr(kani, kani::proof, kani::unwind(6), kani::stub(std::fmt::format, fmt_stub))]
+pub fn c06_register_one_descriptor_step() {
     let mut core = RegistryCore::default();
-    let mut m = Model { live: [false; 4], dim_a: None, dim_b: None };
-    let mut step = 0;
-    let mut refused = false;
-    let mut after_refusal_ok = false;
-    while step < n {
-        let reg = any_bool();
-        let i = any_u8() as usize;
-        assume(i < 4);
-        if reg {
-            let want = m.register(&p, i);
-            let got = core.register(p.boxed(i));
-            match want {
-                None => {
-                    if refused { after_refusal_ok = true; }
-                    assert!(got.is_ok(), "C06 registration succeeds when no descriptor is equal to a registered one and none disagrees in dimension with one ever registered under the same name");
-                }
-                Some(already) => {
-                    refused = true;
-                    assert!(got.is_err(), "C06 registration fails when a descriptor is already registered or disagrees in dimension");
-                    if already {
-                        assert!(matches!(got, Err(Error::AlreadyReg)), "C06 AlreadyReg when an equal descriptor is registered");
-                    }
-                }
-            }
-            std::mem::forget(got);
-        } else {
-            let want = m.unregister(&p, i);
-            let got = core.unregister(p.boxed(i));
-            assert!(got.is_ok() == want, "C06 unregister succeeds exactly for a currently registered collector");
-            std::mem::forget(got);
-        }
-        step += 1;
+    let p = pre_state(&mut core);
+    let (n, s) = any_name();
+    let (id, dim) = (any_u64(), any_u64());
+    assume(id != p.ckey); // collector-key collision = 64-bit hash collision, outside the statement
+    let r = core.register(Box::new(Coll { descs: vec![mk(s, id, dim)] }));
+    let id_taken = id == p.ids[0] || id == p.ids[1];
+    let dim_conflict = match dim_of(&p, n) { Some(h) => h != dim, None => false };
+    vcover!(id_taken, "c06.one: equal descriptor already registered");
+    vcover!(dim_conflict && !id_taken, "c06.one: dimension disagreement");
+    vcover!(!id_taken && !dim_conflict && dim_of(&p, n).is_none(), "c06.one: new name admitted");
+    assert!(r.is_ok() == (!id_taken && !dim_conflict), "C06 registration succeeds exactly when no descriptor equals a registered one and none disagrees in dimension");
+    if id_taken && !dim_conflict {
+        assert!(matches!(r, Err(Error::AlreadyReg)), "C06 AlreadyReg when an equal descriptor is registered");
     }
-    // observable state agrees with the model
-    let mut live = 0;
-    let mut i = 0;
-    while i < 4 {
-        if m.live[i] { live += 1; }
-        i += 1;
+    if r.is_err() {
+        assert!(state_unchanged(&core, &p), "C06 a failed registration leaves no trace");
+    } else {
+        assert!(core.desc_ids.len() == 3 && core.desc_ids.contains(&id), "C06 registered descriptor becomes live");
+        assert!(core.collectors_by_id.len() == 2, "C06 registered collector is held");
+        assert!(core.dim_hashes_by_name.get(name_str(n)) == Some(&dim), "C06 dimension recorded under the name");
     }
-    assert!(core.collectors_by_id.len() == live, "C06 exactly the successfully registered collectors are held");
-    vcover!(after_refusal_ok, "c06.history: a registration succeeds after an earlier one was refused");
+    std::mem::forget(r);
     std::mem::forget(core);
-    std::mem::forget(p);
 }
 
-/// Symbolic history of 3 register/unregister calls over a pool of 4 collectors.
+/// register(collector with TWO symbolic descriptors) from an arbitrary state: the second
+/// descriptor may be the one that fails after the first was already examined.
 #[cfg_attr(kani, kani::proof, kani::unwind(6), kani::stub(std::fmt::format, fmt_stub))]
-pub fn c06_history_3ops() {
-    history(3);
-}
-/// Symbolic history of 4 calls.
-#[cfg_attr(kani, kani::proof, kani::unwind(6), kani::stub(std::fmt::format, fmt_stub))]
-pub fn c06_history_4ops() {
-    history(4);
-}
-
-/// A refused multi-descriptor registration leaves no trace: fully symbolic 64-bit ids and
-/// dimension hashes. [b:x] registered; [a:y, b:z] refused (z != x); then "a" with any dimension
-/// must be admitted, and the refused collector's samples do not appear in gather().
-#[cfg_attr(kani, kani::proof, kani::unwind(6), kani::stub(std::fmt::format, fmt_stub))]
-pub fn c06_refused_registration_leaves_no_trace() {
+pub fn c06_register_two_descriptors_step() {
     let mut core = RegistryCore::default();
-    let (i1, i2, i3, i4) = (any_u64(), any_u64(), any_u64(), any_u64());
-    let (x, y, z, w) = (any_u64(), any_u64(), any_u64(), any_u64());
-    assume(i1 != i2 && i1 != i3 && i1 != i4 && i2 != i3 && i2 != i4 && i3 != i4);
-    assume(i2.wrapping_add(i3) != i1 && i4 != i2.wrapping_add(i3));
-    assume(z != x);
-    let d = |name: &str, id: u64, dim: u64| Desc {
-        fq_name: String::from(name), help: String::new(), const_label_pairs: Vec::new(), variable_labels: Vec::new(), id, dim_hash: dim,
-    };
-    let r1 = core.register(Box::new(Coll { descs: vec![d("b", i1, x)], tag: "c0" }));
-    assert!(r1.is_ok(), "C06 first registration succeeds");
-    let r2 = core.register(Box::new(Coll { descs: vec![d("a", i2, y), d("b", i3, z)], tag: "c1" }));
-    assert!(r2.is_err(), "C06 collector with a descriptor disagreeing in dimension is refused");
-    let r3 = core.register(Box::new(Coll { descs: vec![d("a", i4, w)], tag: "c2" }));
-    assert!(r3.is_ok(), "C06 after a refused registration the registry behaves as if the call had never been made");
-    assert!(core.collectors_by_id.len() == 2);
+    let p = pre_state(&mut core);
+    let (n1, s1) = any_name();
+    let (n2, s2) = any_name();
+    let (i1, d1, i2, d2) = (any_u64(), any_u64(), any_u64(), any_u64());
+    // pool: descriptors of one collector are distinct and agree in dimension when they share a name
+    assume(i1 != i2);
+    assume(n1 != n2 || d1 == d2);
+    assume(i1.wrapping_add(i2) != p.ckey);
+    let r = core.register(Box::new(Coll { descs: vec![mk(s1, i1, d1), mk(s2, i2, d2)] }));
+    let taken = |id: u64| id == p.ids[0] || id == p.ids[1];
+    let conflict = |n: u8, d: u64| match dim_of(&p, n) { Some(h) => h != d, None => false };
+    let ok = !taken(i1) && !taken(i2) && !conflict(n1, d1) && !conflict(n2, d2);
+    vcover!(!taken(i1) && !conflict(n1, d1) && dim_of(&p, n1).is_none() && conflict(n2, d2), "c06.two: first descriptor fine and new, second refused");
+    vcover!(ok, "c06.two: admitted");
+    assert!(r.is_ok() == ok, "C06 registration succeeds exactly when no descriptor equals a registered one and none disagrees in dimension");
+    if r.is_err() {
+        assert!(state_unchanged(&core, &p), "C06 a failed registration leaves no trace");
+    } else {
+        assert!(core.desc_ids.len() == 4 && core.collectors_by_id.len() == 2, "C06 registered descriptors become live");
+        assert!(core.dim_hashes_by_name.get(name_str(n1)) == Some(&d1) && core.dim_hashes_by_name.get(name_str(n2)) == Some(&d2), "C06 dimensions recorded");
+    }
+    std::mem::forget(r);
     std::mem::forget(core);
-    std::mem::forget(r2);
 }
 
-/// Unregister then register again; samples disappear from and return to gather().
+/// unregister from an arbitrary state: succeeds exactly for the live collector, whose ids are
+/// then free again; the name -> dimension map is untouched either way.
 #[cfg_attr(kani, kani::proof, kani::unwind(6), kani::stub(std::fmt::format, fmt_stub))]
-pub fn c06_unregister_then_reregister_gather() {
+pub fn c06_unregister_step() {
+    let mut core = RegistryCore::default();
+    let p = pre_state(&mut core);
+    let (i1, i2) = (any_u64(), any_u64());
+    assume(i1 != i2);
+    let r = core.unregister(Box::new(Coll { descs: vec![mk(String::from("a"), i1, 0), mk(String::from("b"), i2, 0)] }));
+    let is_live = i1.wrapping_add(i2) == p.ckey;
+    // same collector = same descriptor set (key collisions between different sets are hash collisions)
+    assume(!is_live || (i1 == p.ids[0] && i2 == p.ids[1]) || (i1 == p.ids[1] && i2 == p.ids[0]));
+    vcover!(is_live, "c06.unreg: the live collector");
+    assert!(r.is_ok() == is_live, "C06 unregister succeeds exactly for a currently registered collector");
+    if r.is_ok() {
+        assert!(core.collectors_by_id.len() == 0 && core.desc_ids.len() == 0, "C06 its descriptors are free again");
+        let again = core.register(Box::new(Coll { descs: vec![mk(String::from(name_str(p.names[0])), i1, p.dims[0])] }));
+        assert!(again.is_ok(), "C06 an unregistered collector's descriptor can be registered again");
+        std::mem::forget(again);
+    } else {
+        assert!(state_unchanged(&core, &p), "C06 a failed unregister changes nothing");
+    }
+    assert!(core.dim_hashes_by_name.len() == 2, "C06 dimensions ever registered are kept");
+    std::mem::forget(r);
+    std::mem::forget(core);
+}
+
+/// Registering the same collector twice is AlreadyReg; gather() shows exactly live collectors.
+#[cfg_attr(kani, kani::proof, kani::unwind(6), kani::stub(std::fmt::format, fmt_stub))]
+pub fn c06_same_collector_twice_and_gather() {
+    struct Fam(Desc, &'static str);
+    impl Collector for Fam {
+        fn desc(&self) -> Vec<&Desc> { vec![&self.0] }
+        fn collect(&self) -> Vec<proto::MetricFamily> {
+            let mut mf = proto::MetricFamily::default();
+            mf.set_name(String::from(self.1));
+            mf.set_metric(vec![proto::Metric::default()]);
+            vec![mf]
+        }
+    }
     let mut core = RegistryCore::default();
     let (i1, i2, x) = (any_u64(), any_u64(), any_u64());
     assume(i1 != i2);
-    let d = |name: &str, id: u64, dim: u64| Desc {
-        fq_name: String::from(name), help: String::new(), const_label_pairs: Vec::new(), variable_labels: Vec::new(), id, dim_hash: dim,
-    };
-    let c0 = Coll { descs: vec![d("a", i1, x)], tag: "c0" };
-    let c1 = Coll { descs: vec![d("b", i2, x)], tag: "c1" };
-    assert!(core.register(Box::new(c0.clone())).is_ok());
-    assert!(core.register(Box::new(c1.clone())).is_ok());
-    assert!(matches!(core.register(Box::new(c0.clone())), Err(Error::AlreadyReg)), "C06 same collector twice is AlreadyReg");
-    assert!(core.unregister(Box::new(c0.clone())).is_ok(), "C06 unregister of a registered collector succeeds");
-    assert!(core.unregister(Box::new(c0.clone())).is_err(), "C06 unregister of an unregistered collector fails");
+    assert!(core.register(Box::new(Fam(mk(String::from("a"), i1, x), "a"))).is_ok());
+    assert!(core.register(Box::new(Fam(mk(String::from("b"), i2, x), "b"))).is_ok());
+    assert!(matches!(core.register(Box::new(Fam(mk(String::from("a"), i1, x), "a"))), Err(Error::AlreadyReg)), "C06 same collector twice is AlreadyReg");
+    assert!(core.unregister(Box::new(Fam(mk(String::from("a"), i1, x), "a"))).is_ok(), "C06 unregister of a registered collector succeeds");
     let g = core.gather();
-    assert!(g.len() == 1 && g[0].name() == "c1", "C06 samples of an unregistered collector no longer appear");
-    assert!(core.register(Box::new(c0.clone())).is_ok(), "C06 an unregistered collector can be registered again");
-    let g2 = core.gather();
-    assert!(g2.len() == 2, "C06 re-registered collector is gathered again");
+    assert!(g.len() == 1 && g[0].name() == "b", "C06 samples of an unregistered collector no longer appear in gather()");
     std::mem::forget(g);
-    std::mem::forget(g2);
     std::mem::forget(core);
 }
 
 pub fn dispatch(name: &str) -> Option<fn()> {
     Some(match name {
-        "c06_history_3ops" => c06_history_3ops,
-        "c06_history_4ops" => c06_history_4ops,
-        "c06_refused_registration_leaves_no_trace" => c06_refused_registration_leaves_no_trace,
-        "c06_unregister_then_reregister_gather" => c06_unregister_then_reregister_gather,
+        "c06_register_one_descriptor_step" => c06_register_one_descriptor_step,
+        "c06_register_two_descriptors_step" => c06_register_two_descriptors_step,
+        "c06_unregister_step" => c06_unregister_step,
+        "c06_same_collector_twice_and_gather" => c06_same_collector_twice_and_gather,
         _ => return None,
     })
 }
